@@ -118,8 +118,17 @@ def explore(body, col, bound=None, horizon=20000, max_executions=None, on_exec=N
         if first and check_determinism:
             first = False
             ctx2, out2 = run_once(body, ctx.choices, horizon)
-            if ctx2.digest != ctx.digest or ctx2.choices != ctx.choices or \
-                    [k for k, _ in (out2 or [])] != [k for k, _ in (out or [])]:
+            differs = ctx2.digest != ctx.digest or ctx2.choices != ctx.choices or \
+                [k for k, _ in (out2 or [])] != [k for k, _ in (out or [])]
+            if differs and (out or out2):
+                # the code under test already violates the property in one of the two runs (state kept by artap objects across
+                # calls is one way of doing so): the violations are reported, the replay mismatch is not a harness matter
+                for key, msg in out2 or []:
+                    case = {"choices": list(ctx2.choices)}
+                    if case_extra:
+                        case.update(case_extra)
+                    col.violation(key, sub, msg, case)
+            elif differs:
                 raise HarnessError("determinism contract broken: replaying the same choice sequence gave a different "
                                    "observation\nfirst : %r\nsecond: %r" % (ctx.digest, ctx2.digest))
         if col.full:
